@@ -134,6 +134,7 @@ def handle (st : St) (idx : Nat) (line : String) : St × String :=
     | "reflect" :: "rt" :: _ => (st, emit idx impl (judgeReflect implToks))
     | "conn" :: "lw" :: rest => (st, emit idx impl (judgeConnLW ((kv rest "ev").getD "") implToks))
     | "sctp" :: "canswer" :: rest => (st, emit idx impl (judgeCAnswer ((kv rest "streams").getD "") ((kvNat rest "rounds").getD 0) implToks))
+    | "sctp" :: "wstall" :: rest => (st, emit idx impl (judgeWStall ((kvNat rest "retries").getD 0) ((kvNat rest "n").getD 0) implToks))
     | "conn" :: "tlscn" :: _ =>
       -- a connection whose TLS handshake fails is gone: the reader loop has ended, so a channel
       -- requested before or after is closed (C14_quiet / C14_late_request)
